@@ -347,6 +347,30 @@ def rules(ck, P):
                  "the block index named by the header is read and decoded unconditionally, with `?`, before the reader is returned",
                  "the block index is not decoded unconditionally before Ok", ir.loc(b))
 
+    # the commit protocol is about the order in which bytes reach the FILE: the single-file writers get there through the trait's default
+    # write_to_path (DataWriterFile::from_path + write_to_writer, every operation applied to the file as it is issued).  A writer that
+    # overrides it - assembling the container in memory and writing the finished image front to back - puts the final header on disk
+    # first, and every truncation of that one write opens as a valid container without its tiles.
+    wt = [t for q, t in P.traits.items() if q.endswith("container::writer::TilesWriterTrait")]
+    if ck.anchor("R-COMMIT-ORDER", "TilesWriterTrait", wt, 1):
+        dflt = [b for b in P.bodies if b["q"].endswith("TilesWriterTrait::write_to_path") and b.get("trait_default_of")]
+        okd = len(dflt) == 1 and ir.contains(dflt[0]["body"], lambda y: y.get("k") == "call" and (y.get("q") or "").endswith("DataWriterFile::from_path")) and \
+            ir.contains(dflt[0]["body"], lambda y: (y.get("q") or "").endswith("TilesWriterTrait::write_to_writer"))
+        ck.check(okd, "R-COMMIT-ORDER", "TilesWriterTrait::write_to_path|default", "the default write_to_path opens a DataWriterFile on the path and hands it to write_to_writer",
+                 "the default write_to_path does not write through DataWriterFile::from_path + write_to_writer", ir.loc(dflt[0]) if dflt else None)
+        over = [b["q"] for b in P.bodies if b.get("trait_item", "").endswith("TilesWriterTrait::write_to_path") and not b.get("trait_default_of") and
+                any(w in b["q"] for w in ("VersaTilesWriter", "PMTilesWriter"))]
+        ck.check(not over, "R-COMMIT-ORDER", "single-file writers|write_to_path", "VersaTilesWriter and PMTilesWriter reach the file only through the default write_to_path",
+                 "%s overrides write_to_path: the order in which bytes reach the file is no longer the order of write_to_writer's operations, so the header-last commit protocol "
+                 "does not protect an interrupted write" % [o.split(" as ")[0].rsplit("::", 1)[-1] for o in over])
+        raw = []
+        for b in P.bodies:
+            if b["s"][0].startswith(("versatiles_container/src/container/versatiles/writer", "versatiles_container/src/container/pmtiles/writer")) and "::tests::" not in b["q"]:
+                for y in ir.walk_nodes(b["body"]):
+                    if y.get("k") in ("call", "mcall") and (y.get("q") or "").startswith(("std::fs::write", "std::fs::File::create", "std::fs::OpenOptions", "std::fs::rename", "std::fs::copy")):
+                        raw.append((b["q"].rsplit("::", 1)[-1], y["q"], ir.loc(y)))
+        ck.check(not raw, "R-COMMIT-ORDER", "single-file writers|raw-fs", "the single-file writers do not touch the filesystem themselves",
+                 "a single-file writer writes to the filesystem directly (%s), outside the operation order the commit protocol is argued on" % [r[:2] for r in raw[:3]])
     # the crash argument starts from an EMPTY file: whatever opens the output must create or truncate it, so that bytes of an older
     # container at the same path cannot complete an unfinished new one
     fp = [x for x in P.bodies if x["q"].endswith("data_writer_file::DataWriterFile::from_path")]
